@@ -418,6 +418,9 @@ class DiscriminatedUnionUnpackerBuilder(AbstractUnpackerBuilder):
                     "should be a dict instance"
                 )
                 lines.append(f"raise ValueError({message!r}) from None")
+            # only the lookup is guarded: an exception raised by the chosen
+            # variant itself is not a missing registry entry
+            variant_call_args = variant_method_call[len(variant_method_name) :]
             with lines.indent("try:"):
                 if spec.builder.is_nailed:
                     lines.append(f"variant = {chosen_cls}")
@@ -428,11 +431,11 @@ class DiscriminatedUnionUnpackerBuilder(AbstractUnpackerBuilder):
                         "not in variant.__dict__:"
                     ):
                         lines.append("raise AttributeError")
-                    lines.append(f"return variant.{variant_method_call}")
+                    lines.append(f"unpacker = variant.{variant_method_name}")
                 else:
                     lines.append(
-                        f"return {spec.attrs_registry_name}"
-                        f"[{chosen_cls}].{variant_method_call}"
+                        f"unpacker = {spec.attrs_registry_name}"
+                        f"[{chosen_cls}].{variant_method_name}"
                     )
             with lines.indent("except (KeyError, AttributeError):"):
                 lines.append(f"variants_map = {variants_map}")
@@ -454,14 +457,14 @@ class DiscriminatedUnionUnpackerBuilder(AbstractUnpackerBuilder):
                 with lines.indent("try:"):
                     if spec.builder.is_nailed:
                         lines.append(
-                            "return variants_map[discriminator]"
-                            f".{variant_method_call}"
+                            "unpacker = variants_map[discriminator]"
+                            f".{variant_method_name}"
                         )
                     else:
                         lines.append(
-                            f"return {spec.attrs_registry_name}["
+                            f"unpacker = {spec.attrs_registry_name}["
                             "variants_map[discriminator]]"
-                            f".{variant_method_call}"
+                            f".{variant_method_name}"
                         )
                 with lines.indent("except KeyError:"):
                     lines.append(
@@ -469,6 +472,7 @@ class DiscriminatedUnionUnpackerBuilder(AbstractUnpackerBuilder):
                         f"{variants_type_expr}, {discriminator.field!r}, "
                         "discriminator) from None"
                     )
+            lines.append(f"return unpacker{variant_call_args}")
         else:
             with lines.indent(f"for variant in {variants}:"):
                 with lines.indent("try:"):
